@@ -16,6 +16,7 @@ import (
 	"github.com/golang/protobuf/proto" //nolint:staticcheck
 	"github.com/golang/protobuf/ptypes/timestamp"
 	"github.com/hyperledger/fabric-chaincode-go/shim"
+	"github.com/hyperledger/fabric-protos-go/common"
 	"github.com/hyperledger/fabric-protos-go/ledger/queryresult"
 	pb "github.com/hyperledger/fabric-protos-go/peer"
 )
@@ -30,6 +31,12 @@ type Peer struct {
 	// peer's decorators add to it (local to the endorsing peer, not part of the proposal)
 	Transient   map[string][]byte
 	Decorations map[string][]byte
+	// what the CLIENT wrote into the proposal, which a real peer hands to the chaincode unchanged: the peer routes by the
+	// chaincode name of the header extension (which it checks: endorser/msgvalidation.go UnpackProposal) and never looks
+	// at the chaincode id inside the payload's invocation spec.  SpecCCName: that unchecked name, if it is to differ
+	// from the routed chaincode ("-" = none at all); NoHeader: a proposal without header, as /repo's mock ledger builds it
+	SpecCCName string
+	NoHeader   bool
 }
 
 // Channel is one deployed chaincode: by default named after its channel (as the platform deploys tokens). CCName /
@@ -113,11 +120,28 @@ type TxStub struct {
 var _ shim.ChaincodeStubInterface = (*TxStub)(nil)
 
 func (p *Peer) newStub(ch *Channel, txID string, creator []byte, args [][]byte) *TxStub {
-	spec := &pb.ChaincodeInvocationSpec{ChaincodeSpec: &pb.ChaincodeSpec{
-		ChaincodeId: &pb.ChaincodeID{Name: ch.ccName()}, Input: &pb.ChaincodeInput{Args: args}}}
+	specID := &pb.ChaincodeID{Name: ch.ccName()}
+	switch p.SpecCCName {
+	case "":
+	case "-":
+		specID = nil
+	default:
+		specID = &pb.ChaincodeID{Name: p.SpecCCName}
+	}
+	spec := &pb.ChaincodeInvocationSpec{ChaincodeSpec: &pb.ChaincodeSpec{ChaincodeId: specID, Input: &pb.ChaincodeInput{Args: args}}}
 	specB, _ := proto.Marshal(spec)
 	payload, _ := proto.Marshal(&pb.ChaincodeProposalPayload{Input: specB, TransientMap: p.Transient})
-	prop, _ := proto.Marshal(&pb.Proposal{Payload: payload})
+	var header []byte
+	if !p.NoHeader {
+		// the header a peer has validated before it calls the chaincode: channel, transaction id, and the extension
+		// naming the chaincode the proposal is routed to
+		ext, _ := proto.Marshal(&pb.ChaincodeHeaderExtension{ChaincodeId: &pb.ChaincodeID{Name: ch.ccName()}})
+		chdr, _ := proto.Marshal(&common.ChannelHeader{Type: int32(common.HeaderType_ENDORSER_TRANSACTION), ChannelId: ch.channelID(), TxId: txID,
+			Timestamp: &timestamp.Timestamp{Seconds: p.Now}, Extension: ext})
+		shdr, _ := proto.Marshal(&common.SignatureHeader{Creator: creator, Nonce: []byte(txID)})
+		header, _ = proto.Marshal(&common.Header{ChannelHeader: chdr, SignatureHeader: shdr})
+	}
+	prop, _ := proto.Marshal(&pb.Proposal{Header: header, Payload: payload})
 	return &TxStub{ch: ch, txID: txID, args: args, creator: creator, ts: p.Now,
 		sp: &pb.SignedProposal{ProposalBytes: prop}, writes: map[string]KVWrite{},
 		transient: p.Transient, decorations: p.Decorations}
